@@ -43,6 +43,8 @@ type Interp struct {
 	initDone map[string]bool
 	curProp string
 	curIns  ssa.Instruction
+	urlQueries map[*Value]*Map
+	renderInts, renderJSON bool
 }
 
 // fnInfo numbers the SSA values of a function so that frames can use a slice.
@@ -595,6 +597,9 @@ func (in *Interp) evalInstr(fr *frame, ins ssa.Value) Value {
 			}
 			return x[i]
 		case Str:
+			if x.Opq != nil && x.Opq.JSON != nil && i == 0 {
+				return in.jsonFirstByte(x.Opq.JSON)
+			}
 			if i < 0 || i >= x.Len() {
 				in.goPanic("index out of range")
 			}
@@ -1282,7 +1287,22 @@ func (in *Interp) lookup(fr *frame, ins *ssa.Lookup) Value {
 	x := in.get(fr, ins.X)
 	switch x := x.(type) {
 	case Str:
+		if it := term(in.get(fr, ins.Index)); !it.IsConst() && x.IsConc() && len(x.S) <= 64 && len(x.S) > 0 {
+			// symbolic index into a short constant string (hex digit tables): an ite chain
+			c := in.Ctx
+			if in.Path.Branch(c.Cmp(sym.OpUle, c.BV(it.W, uint64(len(x.S))), it)) {
+				in.goPanic("index out of range")
+			}
+			r := c.BV(8, uint64(x.S[len(x.S)-1]))
+			for k := len(x.S) - 2; k >= 0; k-- {
+				r = c.Ite(c.Eq(it, c.BV(it.W, uint64(k))), c.BV(8, uint64(x.S[k])), r)
+			}
+			return r
+		}
 		i := in.concInt(in.get(fr, ins.Index), "index")
+		if x.Opq != nil && x.Opq.JSON != nil && i == 0 {
+			return in.jsonFirstByte(x.Opq.JSON)
+		}
 		if i < 0 || i >= x.Len() {
 			in.goPanic(fmt.Sprintf("index out of range [%d] with length %d", i, x.Len()))
 		}
